@@ -168,4 +168,27 @@ theorem replace_residual_of_inv (S : Schema) (hS : S ∈ domFamilySchemas) (hdet
     (family_leafOk _ (domFamily_sub _ hS)) (family_textStableC _ (domFamily_sub _ hS))
     (family_closable _ (domFamily_sub _ hS)) tr tr1 hlen hattrs f t sl hslv hend h hres
 
+/-- `PM.C04.replace_residual` with its schema guards discharged for the bundled schema family -/
+theorem replace_residual (S : Schema) (hS : S ∈ domFamilySchemas) (hdet : PM.C11.detB S = true) (tr tr1 : Tr)
+    (hlen : tr.steps.length = tr.docs.length) (hv : C01.Valid S tr.doc) (hattrs : S.nodeAttrsOK tr.doc = true)
+    (f t : Nat) (sl : Slice) (hloose : sl.looseValid S = true) (hrun : unplacedWfRun S tr.doc f t sl = true)
+    (h : tr.runOp S (.replace f t sl) = some tr1) (hres : DeleteResidual S tr tr1) :
+    OpResidual S (.replace f t sl) tr tr1 :=
+  PM.C04.replace_residual S hdet (family_fillersOK _ (domFamily_sub _ hS))
+    (family_wrapOK _ (domFamily_sub _ hS)) (family_labelsOK _ (domFamily_sub _ hS))
+    (family_leafOk _ (domFamily_sub _ hS)) (family_textStableC _ (domFamily_sub _ hS))
+    (family_closable _ (domFamily_sub _ hS)) tr tr1 hlen hv hattrs f t sl hloose hrun h hres
+
+/-- `PM.C04.replace_residual_cut` with its schema guards discharged for the bundled schema family -/
+theorem replace_residual_cut (S : Schema) (hS : S ∈ domFamilySchemas) (hdet : PM.C11.detB S = true)
+    (tr tr1 : Tr) (hlen : tr.steps.length = tr.docs.length) (hv : C01.Valid S tr.doc)
+    (hattrs : S.nodeAttrsOK tr.doc = true) (f t : Nat) (src : Node) (a b : Nat) (sl : Slice)
+    (hsrc : C01.Valid S src) (hcut : src.slice a b = .ok sl) (hrun : unplacedWfRun S tr.doc f t sl = true)
+    (h : tr.runOp S (.replace f t sl) = some tr1) (hres : DeleteResidual S tr tr1) :
+    OpResidual S (.replace f t sl) tr tr1 :=
+  PM.C04.replace_residual_cut S hdet (family_fillersOK _ (domFamily_sub _ hS))
+    (family_wrapOK _ (domFamily_sub _ hS)) (family_labelsOK _ (domFamily_sub _ hS))
+    (family_leafOk _ (domFamily_sub _ hS)) (family_textStableC _ (domFamily_sub _ hS))
+    (family_closable _ (domFamily_sub _ hS)) tr tr1 hlen hv hattrs f t src a b sl hsrc hcut hrun h hres
+
 end PM.Family.C04
